@@ -131,6 +131,9 @@ func TestCheck(t *testing.T) {
 		if res.Panic != nil {
 			rep.HarnessError("case %s: panic %v\n%s", cs, res.Panic, res.Stack)
 		}
+		if res.Hang != "" {
+			rep.Violate(map[string]any{"kind": "hang", "case_kind": cs.Kind, "proto": cs.Proto}, map[string]any{"case": cs}, "case %s: %s", cs, res.Hang)
+		}
 		if res.Deadlock != "" {
 			rep.Violate(map[string]any{"kind": "blocked-forever", "case_kind": cs.Kind, "proto": cs.Proto}, map[string]any{"case": cs}, "case %s: goroutines blocked forever at the end of the execution: %s", cs, res.Deadlock)
 		}
